@@ -37,7 +37,7 @@ def bound(tier):
 
 def cases(tier, seed):
     for d in WIDTH:
-        for n in (1, 2, 3):
+        for n in ((1, 2, 3, 4) if tier == "thorough" else (1, 2, 3)):
             for k0 in range(len(KINDS)):
                 yield ("data", d, n, k0)
     yield ("ascii",)
